@@ -59,6 +59,14 @@ def faulted_programs():
         yield ("faulted/" + desc, build)
 
 
+def adversarial_programs():
+    """designs whose own names equal the names the elaborator invents (C05's family): whatever is exported for them must
+    declare every signal it connects"""
+    from props import c05
+    for desc, build in c05.adversarial_designs():
+        yield ("adversarial/" + desc, build)
+
+
 def check_pkg(case):
     import hdl21 as h
     from rtc.wf import wf_package
@@ -80,11 +88,12 @@ def run(ctx):
     c01_deductive.run(ctx)
     from contracts import c_export
     ctx.verify(c_export.names_engine(), c_export.VERIFY_NAMES)
-    cases = itertools.chain(design_family(ctx.tier, ctx.seed), extra_programs(), edited_programs(), faulted_programs())
+    cases = itertools.chain(design_family(ctx.tier, ctx.seed), extra_programs(), edited_programs(), faulted_programs(),
+                            adversarial_programs())
     ctx.run_bounded("wf_package(to_proto(design))", cases, check_pkg,
                     rule=RULE + "; plus Series/MosStack/Wrapper over small parameter ranges; modules whose names were "
                          "re-used for another kind (16 pairs); the single-fault designs of C02 (a package returned for "
-                         "one of them must still be well-formed)",
+                         "one of them must still be well-formed); the adversarially named designs of C05",
                     bound="depth<=3, widths<=4 (8 thorough)", key_of=lambda c: c[0],
                     nontrivial=lambda c: nontrivial(c[0]))
     return INFO
@@ -94,7 +103,8 @@ def replay(payload):
     want = (payload.get("input") or {}).get("design")
     if want:
         for tier in ("quick", "thorough"):
-            for desc, b in itertools.chain(design_family(tier, 0), extra_programs(), edited_programs(), faulted_programs()):
+            for desc, b in itertools.chain(design_family(tier, 0), extra_programs(), edited_programs(), faulted_programs(),
+                            adversarial_programs()):
                 if desc == want:
                     r = check_pkg((desc, b))
                     print("replay:", r)
